@@ -995,12 +995,13 @@ class Check:
                     if res is False:
                         raise self._ValidationError
                 except Exception as e:
+                    # a validator that returns False or raises fails the check,
+                    # and a failed check yields the default like the other conditions
+                    if self.default is not RAISE:
+                        return arg_val(target, self.default, scope)
                     msg = ('expected %r check to validate target'
                            % getattr(validator, '__name__', None) or ('#%s' % i))
-                    if type(e) is self._ValidationError:
-                        if self.default is not RAISE:
-                            return self.default
-                    else:
+                    if type(e) is not self._ValidationError:
                         msg += ' (got exception: %r)' % e
                     errs.append(msg)
 
